@@ -57,7 +57,19 @@ def gen_template(rng, variant=1, containers=("main",)):
     if rng.random() < 0.3:
         res = {containers[0]: {"limits": {"cpu": "500m"}, "requests": {"memory": "64Mi"}}}
     return K.template(containers=containers, image="img:%d" % variant, node_selector=nodesel, terms=terms,
-                      tolerations=rng.choice(TOLS), resources=res)
+                      tolerations=rng.choice(TOLS), resources=res, labels=template_labels(rng))
+
+
+def template_labels(rng):
+    """the labels of a pod template: now and then a manifest copied from a live pod, still carrying the controller's own
+    linking labels (of another ExtendedDaemonSet) - the controller's values have to win"""
+    labels = {"app": "agent"}
+    if rng.random() < 0.12:
+        if rng.random() < 0.8:
+            labels["extendeddaemonset.datadoghq.com/name"] = rng.choice(["bar", "other", ""])
+        if rng.random() < 0.6:
+            labels["extendeddaemonsetreplicaset.datadoghq.com/name"] = rng.choice(["bar-abcde", "foo-a", "zzz"])
+    return labels
 
 
 def gen_nodes(rng, n, eds_ns=NS, eds_name=EDS, containers=("main",)):
@@ -79,7 +91,11 @@ def gen_nodes(rng, n, eds_ns=NS, eds_name=EDS, containers=("main",)):
             ann["%s%s.%s.%s" % (P.RES_PREFIX, eds_ns, eds_name + ".bar", "main")] = json.dumps({"limits": {"cpu": "2"}})
         elif r < 0.23:
             ann["%s%s.%s.%s" % (P.RES_PREFIX, "other", eds_name, "main")] = json.dumps({"limits": {"cpu": "2"}})
-        nodes.append(K.node("n%d" % i, labels=labels, taints=[taint] if taint else None, annotations=ann or None))
+        taints = [taint] if taint else None
+        if rng.random() < 0.12:
+            # two taints, in either order: a tolerated one does not make up for an untolerated one
+            taints = rng.sample([t for t in TAINTS if t], 2)
+        nodes.append(K.node("n%d" % i, labels=labels, taints=taints, annotations=ann or None))
     return nodes
 
 
@@ -171,6 +187,10 @@ def gen_rs_conditions(rng, role, now=0, freq=10):
             # left over from the time this replica set was a (paused) canary: promoted by validation while paused
             conds.append(K.cond("Canary-Paused", rng.choice(["True", "True", "False"]), trans=-650,
                                 reason=rng.choice(["CrashLoopBackOff", "ImagePullBackOff", "Unknown"])))
+    if role not in ("active", "canary") and rng.random() < 0.35:
+        conds.append(K.cond("Canary-Failed", rng.choice(["True", "True", "False"]), trans=rng.choice([-20, -121, -700]), reason="CrashLoopBackOff"))
+        if rng.random() < 0.5:
+            conds.append(K.cond("Canary-Paused", rng.choice(["True", "False"]), trans=-30, reason="ImagePullBackOff"))
     if role == "canary":
         if rng.random() < 0.7:
             conds.append(K.cond("Canary", "True", trans=rng.choice([-30, -600, -601, -3000])))
@@ -329,7 +349,8 @@ def gen_ers_world(rng, stats=None, force=None):
                        for cname in conts if cname == conts[0] or rng.random() < 0.5]
             sets.append(K.setting(NS, "set%d" % j, rng.choice([EDS, EDS, EDS, "other", None]),
                                   rng.choice([{"matchLabels": {"big": "yes"}}, {"matchLabels": {"zone": "a"}},
-                                              {"matchExpressions": [{"key": "big", "operator": "In", "values": []}]}]),
+                                              {"matchExpressions": [{"key": "big", "operator": "In", "values": []}]},
+                                              {"matchLabels": {"zone": "not a label value"}}]),
                                   entries,
                                   status=rng.choice(["valid", "valid", "valid", "error", ""]), created=-1000 - j))
         objs += sets
@@ -432,7 +453,8 @@ def gen_eds_world(rng, stats=None, force=None):
     if canary is not None and rng.random() < 0.25 and not force.get("canary"):
         canary["nodeSelector"] = rng.choice([{"matchLabels": {"role": "w"}}, {"matchExpressions": [{"key": "zone", "operator": "In", "values": ["a"]}]},
                                              {"matchExpressions": [{"key": "zone", "operator": "In", "values": []}]},
-                                             {"matchExpressions": [{"key": "zone", "operator": "Weird"}]}])
+                                             {"matchExpressions": [{"key": "zone", "operator": "Weird"}]},
+                                             {"matchLabels": {"role": "w", "zone": "not a label value"}}])
     if canary is not None and rng.random() < 0.3:
         canary["nodeAntiAffinityKeys"] = rng.choice([["zone"], ["zone", "role"], ["missing"]])
     strat, freq = gen_strategy(rng, n, canary)
@@ -488,6 +510,21 @@ def gen_eds_world(rng, stats=None, force=None):
         if rng.random() < 0.15:
             cn.append("n-gone")
         can = {"replicaSet": rng.choice(["foo-b", "foo-b", "foo-b", "foo-old"]), "nodes": cn} if rng.random() < 0.8 else None
+        if scenario == "canary_failed" and rng.random() < 0.3:
+            # in the middle of a rollback that cannot finish (the status write went through, the spec write keeps failing):
+            # status.canary is gone, the failed replica set - still the one of spec.template - has given its nodes back
+            can = None
+            st = rss[-1]["status"]
+            st["status"] = rng.choice(["unknown", "canary", ""])
+            for k_ in ("desired", "current", "ready", "available"):
+                st[k_] = 0
+            for c_ in st.get("conditions") or []:
+                if c_["type"] == "Canary-Failed":
+                    c_["lastTransitionTime"] = K.ts(rng.choice([-119, -120, -121, -500]))
+            force = dict(force, mid_rollback=True)
+            if stats is not None:
+                d_ = stats.setdefault("rollback interrupted between its two writes", {})
+                d_["yes"] = d_.get("yes", 0) + 1
         est = K.eds_status(active="foo-a", desired=rng.choice([n, n, 0, n + len(cn)]), current=n, ready=n, available=n, uptodate=n,
                            state=rng.choice(["Running", "Canary", "Canary Paused"]), canary=can,
                            conditions=rng.choice([None, None, [K.cond("Canary-Paused", "True", trans=-50, reason="ImagePullBackOff")],
@@ -532,13 +569,20 @@ def gen_eds_world(rng, stats=None, force=None):
                           cstats=[K.container_status("main", restarts=9, last_reason="Error", last_finished=-50)]))
     ops = []
     faults = None
-    if rng.random() < 0.1 and not force.get("no_faults"):
+    if force.get("mid_rollback") and rng.random() < 0.6 and not force.get("no_faults"):
+        faults = {"update": True}
+    elif rng.random() < 0.1 and not force.get("no_faults"):
         faults = rng.choice([{"status": True}, {"update": True}, {"rs_delete": ["*"]}, {"rs_create": True},
                              {"list_fail": ["ExtendedDaemonSetReplicaSet"]}, {"list_fail": ["Pod"]}, {"list_fail": ["Node"]}])
         if "rs_delete" in faults:
             faults = {"rs_delete": [r["metadata"]["name"] for r in rss]}
     ops.append(K.reconcile("eds", NS, EDS, faults))
     for _ in range(rng.choice([0, 1, 2])):
+        if rng.random() < (0.8 if force.get("mid_rollback") else 0.25):
+            # the replica-set controller works in between
+            op = K.reconcile("ers", NS, "*")
+            op["seconds"] = rng.randint(0, 5)
+            ops.append(op)
         if rng.random() < 0.5:
             ops.append(K.sleep(rng.choice([1, 10, 60, 120, 600])))
         ops.append(K.reconcile("eds", NS, EDS))
